@@ -44,25 +44,25 @@ U2 = [(V, 'u2_buffer', {}), (V, 'u2_stream', {})]
 PROPS = {
     'C01': dict(
         components=[(V, 'u1_search', {}), (V, 'u1_iter', {}),
-                    sem('lf,ll', 'find,iter,spans')],
+                    sem('lf,ll', 'find,iter,spans'), sem('lf,ll', 'find,iter', families='deep')],
         level_text='Proof (Verus, unbounded in haystack/span): the real try_find_fwd/try_find_fwd_imp/get_match return the abstract run answer find_spec ("keep the last match, stop at dead state or span end") of any automaton satisfying the Automaton contract AC, and FindIter::next/handle_overlapping_empty_match/search implement the iterator step relation of the statement (restart at previous end, empty-match rule). Bounded stand-in: leftmost-first/longest definition vs the real builders on all small pattern lists.',
         level_note=COMMON_NOTE,
     ),
     'C02': dict(
         components=[(V, 'u1_search', {}), (V, 'u1_iter', {}),
-                    sem('std', 'find,iter,spans')],
+                    sem('std', 'find,iter,spans'), sem('std', 'find,iter', families='deep')],
         level_text='Proof (Verus): try_find_fwd forces earliest for standard automata (dispatcher obligation) and the loop returns at the first match state (find_spec with earliest); iterator as in C01. Bounded stand-in: earliest-end/longest/first-supplied definition vs the real builders.',
         level_note=COMMON_NOTE,
     ),
     'C03': dict(
         components=[(V, 'u1_overlap', {}),
-                    sem('std', 'ov,spans')],
+                    sem('std', 'ov,spans'), sem('std', 'ov', families='deep')],
         level_text='Proof (Verus): every call of the real try_find_overlapping_fwd(_imp) on an OverlappingState reports the head of ov_remaining(state) (abstraction function over id/at/next_match_index) and leaves its tail, or reports None forever once it is empty — for all call-history prefixes, haystacks, spans. Bounded stand-in: the listing equals all occurrences exactly once in (end, longer-first, id) order on the real builders.',
         level_note=COMMON_NOTE,
     ),
     'C04': dict(
         components=[('kani', 'alphabet_leaf', {})] + U1 + [b('bisim', families='small,abc,ci,wide'),
-                         sem('std,lf,ll', 'find,iter,ov', families='small', cfgs='all')],
+                         sem('std,lf,ll', 'find,iter,ov,anch', families='small,abc', cfgs='all', rel='kind', thorough_aspects='find,iter,ov,anch,spans')],
         level_text='Proof (Verus): every search API is a function of the abstract automaton only (find_spec / ov_remaining over AC), so two representations with equal abstract behaviour give equal results for every haystack. Bounded stand-in (exhaustive over haystacks per pattern list): product BFS bisimulation of the reference noncontiguous NFA with every contiguous/DFA/dense-depth/byte-class configuration over all 256 bytes from both start states; top-level vs low-level use compared through the API.',
         level_note=COMMON_NOTE + ' The lifting "bisimilar automata => equal API results" (L-bisim) is an unmechanised consequence of the proved postconditions being functions of the AC ghost state only.',
     ),
@@ -79,23 +79,23 @@ PROPS = {
         level_note='No obligations are discharged for C06 yet; bounded executed contract only. SIMD intrinsics are outside every installed verifier.',
     ),
     'C07': dict(
-        components=U2 + [(V, 'u1_iter', {}), b('stream')],
+        components=U2 + [(V, 'u1_iter', {}), b('stream', aspects='find')],
         level_text='Proof (Verus, fully within the family): for every reader obeying the std::io::Read contract — i.e. for all read sizes, all positions where a read ends, all buffer capacities > min — the real StreamChunkIter::next/StreamFindIter::next yield exactly st_rest(stream), the run of the abstract automaton over the concatenated stream with absolute offsets (Buffer::new/fill/roll proved with content postconditions). The in-memory side (FindIter over find_spec) is proved in u1_iter. Bounded companion: real readers with explicit schedules and capacities 1..8 bytes above the minimum (hook H2).',
         level_note=COMMON_NOTE + ' Read contract = std documentation (assumption about the caller\'s reader). Buffer::free_buffer (one line) is trusted with a stated contract. Streams shorter than 2^64 bytes.',
     ),
     'C08': dict(
-        components=U2 + [b('stream')],
+        components=U2 + [b('stream', aspects='replace')],
         level_text='Proof (Verus): the chunk sequence of StreamChunkIter::next partitions the stream: each NonMatch chunk is the next unreported bytes and never reaches into the next match, each Match chunk is exactly the next match of the abstract run with its bytes stream[m.start..m.end]; only bytes older than the retained tail are flushed before a roll and buffer_reported_pos is re-based by the rolled distance. Bounded companion: stream_replace_all / _with vs the splice definition on real readers/writers.',
         level_note=COMMON_NOTE + ' The replacement driver loop (write_all per chunk) is covered by the bounded companion only; Read/Write contracts = std documentation.',
     ),
     'C09': dict(
         components=[(V, 'u1_search', {}), (V, 'u1_overlap', {}), (V, 'u1_iter', {}),
-                    sem('std,lf,ll', 'find,iter,anch,ovanch,spans')],
+                    sem('std,lf,ll', 'find,iter,anch,ovanch,spans'), sem('std,lf,ll', 'find,iter,anch,ovanch', families='wide,deep', cfgs='low')],
         level_text='Proof (Verus): with an anchored input the search loop keeps only matches starting at input.start (scan with fstart = Some(start)), the overlapping stepper reports exactly the kept matches (state_matches with keep), FindIter is generic in anchoring. Bounded stand-in: anchored results equal the definition restricted to occurrences starting at the span start, for NFAs and DFAs with Anchored/Both start kinds.',
         level_note=COMMON_NOTE,
     ),
     'C10': dict(
-        components=[('kani', 'search_leaf', {}), ('kani', 'prefilter_findin', {})] + U1 + [sem('std,lf,ll', 'find,iter,ov,anch,spans', families='small'), b('pc', aspects='find,iter')],
+        components=[('kani', 'search_leaf', {}), ('kani', 'prefilter_findin', {})] + U1 + [sem('std,lf,ll', 'find,iter,ov,anch,spans', families='small', cfgs='low', rel='span', maxhay='5', thorough_maxhay='7'), b('pc', aspects='find,iter', mode='span')],
         level_text='Proof (Verus): every postcondition of the search units is stated for an arbitrary valid span; haystack is indexed only at positions in [start,end) (bounds obligations), every reported match lies in the span (lemma_scan_bounds), is_done yields None, Input::set_span/set_start preconditions are exactly the non-panicking domain. Bounded stand-in: all spans incl. start = end+1 on the real builders and prefilters.',
         level_note=COMMON_NOTE,
     ),
@@ -120,7 +120,7 @@ PROPS = {
         level_note=COMMON_NOTE,
     ),
     'C15': dict(
-        components=[('kani', 'search_leaf', {})] + U1 + [b('packed'), b('pc', aspects='find')],
+        components=[('kani', 'search_leaf', {})] + U1 + [b('packed', mode='safety'), b('pc', mode='safety')],
         level_text='Proof (Verus): every index, slice, subtraction, addition, unwrap/expect/assert!/debug_assert! in the extracted search functions is a discharged obligation; reported matches satisfy start <= end <= len and pid < pattern count (match_in lemmas). Bounded stand-in for the raw-pointer SIMD code: all packed variants on exactly-sized allocations for lengths 0..=100.',
         level_note=COMMON_NOTE + ' Raw-pointer code (Teddy, is_prefix_raw) is covered by bounded runs only until the Kani unit lands.',
     ),
